@@ -210,6 +210,48 @@ func vndLockState(obj interface{}) int {
 	return 0
 }
 
+// vndHammer (native): runs f (2 goroutines) and g (4 goroutines) concurrently, n times each, and panics if neither makes progress for 3 seconds:
+// the native confirmation of a deadlock the executor predicts from its lock model (e.g. a recursive read lock,
+// which only hangs when a writer arrives between the two RLock calls).
+func vndHammer(n int, f, g func()) {
+	var prog int64
+	var mu sync.Mutex
+	const workers = 6 // 2 run f, 4 run g
+	done := make(chan struct{}, workers)
+	run := func(h func()) {
+		for i := 0; i < n; i++ {
+			h()
+			mu.Lock()
+			prog++
+			mu.Unlock()
+		}
+		done <- struct{}{}
+	}
+	for k := 0; k < workers; k++ {
+		if k < 2 {
+			go run(f)
+		} else {
+			go run(g)
+		}
+	}
+	finished := 0
+	last := int64(-1)
+	for finished < workers {
+		select {
+		case <-done:
+			finished++
+		case <-time.After(3 * time.Second):
+			mu.Lock()
+			cur := prog
+			mu.Unlock()
+			if cur == last {
+				panic(fmt.Sprintf("DEADLOCK: no call returned for 3 seconds (after %d calls)", cur))
+			}
+			last = cur
+		}
+	}
+}
+
 // vndRaceDetect switches the executor's happens-before race detection on for the rest of the path; vndRaceCheck
 // reports what it found. Natively both do nothing: the replay of a race tape runs under go test -race.
 func vndRaceDetect() {}
@@ -360,7 +402,7 @@ func (x *Exec) vnd(name string, args []Value) Value {
 				continue
 			}
 			found = true
-			if x.mutexHeld[k] != 0 {
+			if x.mutexHeld[k] != 0 || x.readers(k) > 0 {
 				return x.i64(1)
 			}
 		}
@@ -368,9 +410,17 @@ func (x *Exec) vnd(name string, args []Value) Value {
 			return x.i64(2)
 		}
 		return x.i64(0)
+	case "vndHammer":
+		// symbolically: each body once, one after the other, as two goroutines (what can go wrong between them is
+		// decided by the lock model and the race detector, not by running schedules)
+		x.runGoroutine(parkedGo{fn: args[1]})
+		x.runGoroutine(parkedGo{fn: args[2]})
+		return nil
 	case "vndRaceDetect":
 		if x.race == nil {
 			x.race = newRaceState()
+			x.race.ensure(x.gid)
+			x.race.gid = x.gid
 		}
 		return nil
 	case "vndRaceCheck":
@@ -383,6 +433,7 @@ func (x *Exec) vnd(name string, args []Value) Value {
 				if r := recover(); r != nil {
 					if gp, ok := r.(*goPanic); ok && strings.HasPrefix(gp.Msg, "DEADLOCK") {
 						returned = false
+						x.rdHeld = nil
 						x.mutexHeld = map[*Cell]int{} // the blocked goroutine keeps whatever it holds; the watchdog's caller goes on
 						return
 					}
